@@ -31,7 +31,50 @@ func (p *c08) Init(tier string, seed int64) {
 	p.nRand = p.pick(12000, 300000)
 }
 
-func (p *c08) N() int { return p.nEnum + p.nRand + c08Rec }
+func (p *c08) N() int { return p.nEnum + p.nRand + c08Rec + c08Many }
+
+// c08Many: one execution with hundreds of captures of one kind, one after the other (nothing nested): whatever a
+// capture takes on entry it gives back on exit, the 300th time as the first.
+const c08Many = 6
+
+func (p *c08) buildMany(j int) (*Program, string) {
+	n := p.pick(300, 3000)
+	var call gen.Node
+	name := []string{"set-capture", "filter-section", "macro-call", "block()", "parent()", "mixed"}[j]
+	ts := map[string]*gen.Template{}
+	row := func(kind int) gen.Node {
+		switch kind {
+		case 0:
+			return &gen.NIf{Conds: []gen.Expr{&gen.EBool{V: true}}, Bodies: [][]gen.Node{{&gen.NSetCap{Name: "r", Body: []gen.Node{tx("c"), pr(nm("i"))}}, pr(nm("r")), tx(",")}}}
+		case 1:
+			return &gen.NFilter{Filters: []string{"b1"}, Body: []gen.Node{tx("f"), pr(nm("i"))}}
+		case 2:
+			return pr(&gen.EMethod{X: nm("_self"), Name: "mm", Args: []gen.Expr{nm("i")}})
+		case 3:
+			return &gen.NIf{Conds: []gen.Expr{&gen.EBool{V: true}}, Bodies: [][]gen.Node{{&gen.NSet{Name: "r", X: &gen.EBlockFn{Name: str("leaf")}}, pr(nm("r")), tx(",")}}}
+		}
+		return nil
+	}
+	if j < 4 {
+		call = row(j)
+	}
+	loop := func(body ...gen.Node) gen.Node {
+		return &gen.NFor{Val: "i", Seq: &gen.EGroup{X: &gen.EBin{Op: "..", L: num(1), R: num(n)}}, Body: body}
+	}
+	mm := &gen.NMacro{Name: "mm", Params: []string{"p"}, Body: []gen.Node{tx("m"), pr(nm("p")), tx(";")}}
+	leaf := &gen.NBlock{Name: "leaf", Body: []gen.Node{tx("L.")}}
+	switch {
+	case j < 4:
+		ts["main"] = tpl("main", mm, tx("["), leaf, tx("|"), loop(call), tx("]"))
+	case j == 4:
+		// the overriding block calls parent() once per iteration
+		ts["base"] = tpl("base", tx("B["), &gen.NBlock{Name: "content", Body: []gen.Node{tx("P.")}}, tx("]"))
+		ts["main"] = tpl("main", &gen.NExtends{Tpl: str("base")}, &gen.NBlock{Name: "content", Body: []gen.Node{loop(pr(&gen.EParent{})), tx("|"), pr(&gen.EParent{})}})
+	default:
+		ts["main"] = tpl("main", mm, tx("["), leaf, tx("|"), loop(row(0), row(1), row(2), row(3)), tx("]"))
+	}
+	return &Program{Templates: ts, Main: "main", Ctx: map[string]interface{}{}}, fmt.Sprintf("many/%s/n=%d", name, n)
+}
 
 const c08Rec = 5 * 5
 
@@ -329,6 +372,10 @@ func (p *c08) build(i int) (*Program, *c08gen) {
 }
 
 func (p *c08) Describe(i int) interface{} {
+	if i >= p.nEnum+p.nRand+c08Rec {
+		_, sig := p.buildMany(i - p.nEnum - p.nRand - c08Rec)
+		return map[string]interface{}{"case": sig}
+	}
 	if i >= p.nEnum+p.nRand {
 		prog, sig := p.buildRec(i - p.nEnum - p.nRand)
 		d := prog.describe()
@@ -342,6 +389,14 @@ func (p *c08) Describe(i int) interface{} {
 }
 
 func (p *c08) Run(i int) (res fw.Result) {
+	if i >= p.nEnum+p.nRand+c08Rec {
+		prog, sig := p.buildMany(i - p.nEnum - p.nRand - c08Rec)
+		if _, _, ok := modelCase(&res, "c08:"+sig, prog, gen.Canon{}, true); !ok {
+			res.Fail("harness", "c08:oor:"+sig, "case left the model's region", prog.describe())
+		}
+		res.UniqueNT = 1
+		return
+	}
 	if i >= p.nEnum+p.nRand {
 		prog, sig := p.buildRec(i - p.nEnum - p.nRand)
 		if _, _, ok := modelCase(&res, "c08:"+sig, prog, gen.Canon{}, true); !ok {
@@ -370,7 +425,7 @@ func (p *c08) Run(i int) (res fw.Result) {
 }
 
 func (p *c08) Rule() string {
-	return "cases: enumerated - every nesting of depth <=2 (quick) / <=3 (thorough) of the five capture kinds (set..endset, filter section with 1..3 bracket filters, macro call, block(), parent()) x 3 continuations (captured value printed 1..3 times); re-entrant captures - terminating recursive macros (linear, two inner calls, mutual) inside set-captures and filter sections and a block that renders itself through block(), depth 0..4; captures of a single print of a number / bool / null (the captured value is the text: passed to a recording filter and used as a condition); macro parameters named like a context variable and read again inside two nested loops and a capture; random - nestings to depth 5 (with includes and embeds of templates that capture on their own account dropped into any body, embed overrides capturing too) with 1..2 captures per level (a quarter of the bodies consist of exactly one capturing construct with nothing around it, so sections are directly nested), captures inside loops (<=2 deep), captured values printed 0..3 times, assigned from block()/parent() and passed on as macro arguments, in extending and non-extending templates. Every text run and print carries a unique marker (T17. / P23.), so the oracle (reference model output plus the recorded filter-callback log) sees any byte that is misrouted, duplicated or lost. Non-trivial = nesting depth >= 2 or a capture inside a loop; distinct = multiset of capture paths."
+	return "cases: enumerated - every nesting of depth <=2 (quick) / <=3 (thorough) of the five capture kinds (set..endset, filter section with 1..3 bracket filters, macro call, block(), parent()) x 3 continuations (captured value printed 1..3 times); 300 (thorough 3000) sequential captures of each kind in one execution; re-entrant captures - terminating recursive macros (linear, two inner calls, mutual) inside set-captures and filter sections and a block that renders itself through block(), depth 0..4; captures of a single print of a number / bool / null (the captured value is the text: passed to a recording filter and used as a condition); macro parameters named like a context variable and read again inside two nested loops and a capture; random - nestings to depth 5 (with includes and embeds of templates that capture on their own account dropped into any body, embed overrides capturing too) with 1..2 captures per level (a quarter of the bodies consist of exactly one capturing construct with nothing around it, so sections are directly nested), captures inside loops (<=2 deep), captured values printed 0..3 times, assigned from block()/parent() and passed on as macro arguments, in extending and non-extending templates. Every text run and print carries a unique marker (T17. / P23.), so the oracle (reference model output plus the recorded filter-callback log) sees any byte that is misrouted, duplicated or lost. Non-trivial = nesting depth >= 2 or a capture inside a loop; distinct = multiset of capture paths."
 }
 
 func (p *c08) Assumptions() []string {
